@@ -88,6 +88,9 @@ MEMBERS = {
     'staticcall_in_body': ["def _helper(v):", "    return v * 2", "hv = _helper(21)"],
     'super_in_classmethod': ["@classmethod", "def mk(cls):", "    return super().__new__(cls)"],
     'init': ["def __init__(self):", "    super().__init__()", "    self.iv = 'set-in-init'"],
+    'super0_in_loops': ["def who(self):", "    out = []", "    for i in range(2):", "        out.append('K' + str(i) + '>' + (super().who() if hasattr(super(), 'who') else '-'))",
+                        "    n = 0", "    while n < 1:", "        n += 1", "        if hasattr(super(), 'who'):", "            out.append(super().who())", "    return out",
+                        "@classmethod", "def c(cls):", "    for _ in range(1):", "        r = ('c-in-loop', cls.__name__, super().__name__ if False else cls.__mro__[1].__name__)", "    return r"],
     'classcell': ["def cc(self):", "    return __class__.__name__", "def cc_super(self):", "    return super().__class__.__name__, super().__init__ is not None"],
 }
 CALLS = ('m', 'm5', 's', 'c', 'p', 'im', 'lam', 'who', 'who2', 'getpv', 'dd', 'md', 'tag', 'hello', 'd1', 'd2')
